@@ -4,6 +4,7 @@ import (
 	"bytes"
 	"context"
 	"encoding/binary"
+	"encoding/hex"
 	"encoding/json"
 	"errors"
 	"fmt"
@@ -520,10 +521,13 @@ func tthHostileCases(c *Ctx) []json.RawMessage {
 		"i0": "10" + "0000",
 		"a1": "11" + "0002" + "7478",
 		"a0": "11" + "0000",
+		// a str section that carries the key the ACL token is stored under: sections apply in header order, the later one wins
+		"sg": "01" + "0001" + "0016" + hex.EncodeToString([]byte(gdprKey)) + "0001" + "47",
+		"sG": "01" + "0002" + "0001" + "62" + "0001" + "42" + "0016" + hex.EncodeToString([]byte(gdprKey)) + "0000",
 		"p":  "00",
 		"pp": "0000",
 	}
-	names := []string{"s1", "s2", "s0", "i1", "i2", "i0", "a1", "a0", "p", "pp"}
+	names := []string{"s1", "s2", "s0", "i1", "i2", "i0", "a1", "a0", "p", "pp", "sg", "sG", "a1", "sg"}
 	for i := 0; i < c.Pick(600, 8000); i++ {
 		body := "0000"
 		n := 1 + rng.Intn(5)
@@ -535,6 +539,19 @@ func tthHostileCases(c *Ctx) []json.RawMessage {
 		add(TTHCase{F: (bl + pad) / 4, BLen: bl + pad, Body: body, Total: 50})
 		if rng.Intn(3) == 0 { // the same sections but the size field cuts into them
 			add(TTHCase{F: (bl+pad)/4 - 1, BLen: bl + pad, Body: body, Total: 50})
+		}
+	}
+	for _, x := range []string{"a1", "a0", "sg", "sG", "s1"} {
+		for _, y := range []string{"a1", "a0", "sg", "sG", "s1"} {
+			for _, z := range []string{"", "a1", "sg", "i1"} {
+				body := "0000" + sec[x] + sec[y]
+				if z != "" {
+					body += sec[z]
+				}
+				bl := len(body) / 2
+				pad := (4 - bl%4) % 4
+				add(TTHCase{F: (bl + pad) / 4, BLen: bl + pad, Body: body, Total: 50})
+			}
 		}
 	}
 	// inner string lengths that overrun the header by 1, 2, 3 bytes (the header ends the input exactly:
